@@ -29,7 +29,7 @@ impl Property for C06 {
     type Scenario = Scenario;
 
     fn rule() -> String {
-        "wirekit: one TCP connection between two seeded application programs (write chunkings incl. 0/1-byte writes, poll_write or try_write, reader buffers of 1 byte ... larger than the transfer, peek, half-close by shutdown / dropped write half / stream drop after EOF, server- or client-speaks-first, late readers (first read k rounds after the connection is up, k below and beyond the retransmit budget) and sequential applications (first read only after the own writes are done or have failed), both directions at once, 0-2 KiB per direction) over the real turmoil-net stack on 2 hosts (IPv4/IPv6; plus loopback and own-address variants without wire faults), KernelConfig seeded (MSS 1..1460 via mtu, send/recv caps 1 B..64 KiB incl. below one MSS and below the transfer, retx_threshold 2-4, retx_max 1-6), on a hand-rolled executor whose poll order and spurious polls are scenario data. The harness is the wire: every packet between egress_all and deliver gets a fate (deliver / hold k rounds / drop) by packet index or by classified kind (SYN, SYN-ACK, handshake ACK, DATA, ACK, window update, FIN, RST), due packets are delivered in a scenario-chosen order. Fault enumeration: each fault-free seeded workload is run once to record its packet sequence, then re-run once per packet index x {drop, delay 1, delay d_max} (thorough: also all pairs for sequences <= 25 packets); plus seeded multi-fault plans inside the premise (drops <= retx_max-1, delays bounded so that all drops, one delayed segment and its delayed ACK on one round trip stay 4 rounds below retx_threshold*(retx_max+1)), a 1/16 slice end-to-end through turmoil-net's own fixture::ClientServer / fixture::lo (paused tokio runtime, built-in scheduler) with the plan installed as a Rule closure (Drop / Deliver(k ms)), exhaustion plans (everything / one direction lost from packet k on, k moved systematically over the recorded fault-free packet sequence; in half of them one application reads only after the stack must have given up) and unbounded plans (safety only). Oracle: safety always (bytes read/peeked equal the position-coded bytes the peer's writes accepted, EOF only after the peer closed and everything was read); bounded plans: no operation fails, and within retx_threshold*(retx_max+1)+2d+8 rounds after the last fault activity the applications make progress until both directions delivered every byte and EOF (else Stall); exhaustion: every operation of a side that still owes acknowledged bytes fails instead of hanging. Non-trivial: >=1 planned fault fired on a packet and the connection carried >=2 data segments; distinct = distinct digests of (packet kind, fate, application outcome kind) sequences".into()
+        "wirekit: one TCP connection between two seeded application programs (write chunkings incl. 0/1-byte writes, poll_write or try_write, reader buffers of 1 byte ... larger than the transfer, peek, half-close by shutdown / dropped write half / stream drop after EOF, server- or client-speaks-first, late readers (first read k rounds after the connection is up, k below and beyond the retransmit budget) and sequential applications (first read only after the own writes are done or have failed), both directions at once, 0-2 KiB per direction) over the real turmoil-net stack on 2 hosts (IPv4/IPv6; plus loopback and own-address variants without wire faults), KernelConfig seeded (MSS 1..1460 via mtu, send/recv caps 1 B..64 KiB incl. below one MSS and below the transfer, retx_threshold 2-4, retx_max 1-6), on a hand-rolled executor whose poll order and spurious polls are scenario data. The harness is the wire: every packet between egress_all and deliver gets a fate (deliver / hold k rounds / drop) by packet index or by classified kind (SYN, SYN-ACK, handshake ACK, DATA, ACK, window update, FIN, RST), due packets are delivered in a scenario-chosen order. Fault enumeration: each fault-free seeded workload is run once to record its packet sequence, then re-run once per packet index x {drop, delay 1, delay d_max} (thorough: also all pairs for sequences <= 25 packets); plus seeded multi-fault plans inside the premise (drops <= retx_max-1, delays bounded so that all drops, one delayed segment and its delayed ACK on one round trip stay 4 rounds below retx_threshold*(retx_max+1)), a 1/16 slice end-to-end through turmoil-net's own fixture::ClientServer / fixture::lo (paused tokio runtime, built-in scheduler) with the plan installed as a Rule closure (Drop / Deliver(k ms)), exhaustion plans (everything / one direction lost from packet k on, k moved systematically over the recorded fault-free packet sequence; in half of them one application reads only after the stack must have given up) and unbounded plans (safety only). Oracle: safety always (bytes read/peeked equal the position-coded bytes the peer's writes accepted, EOF only after the peer closed and everything was read); bounded plans: no operation fails, and within retx_threshold*(retx_max+1)+2d+8 rounds after the last fault activity the applications make progress until both directions delivered every byte and EOF (else Stall); exhaustion: every operation of a side that still owes acknowledged bytes fails instead of hanging. Non-trivial: >=1 planned fault fired on a packet and the connection carried >=2 data segments; distinct = distinct digests of (packet kind, fate, application outcome kind) sequences. Added later: one-shot closes (read the request, answer, drop the stream at once) and abortive closes (reader stops half way, stream dropped with inbound data outstanding: the peer may get an error, nobody may hang unless the RST itself was lost); a loopback side connection on the client host kept busy during the run.".into()
     }
     fn components_real() -> Vec<&'static str> {
         vec!["turmoil-net: Net, EnterGuard (egress_all/deliver/set_current), kernel (tcp.rs state machine, retransmit, windows, segmentation), shim TcpListener/TcpStream/OwnedReadHalf/OwnedWriteHalf, netstat"]
